@@ -193,3 +193,24 @@ func HC11Unbind() {
 	_ = it.Close()
 	vr.Assert(vr.LiveThreads() == 0, "Close waits for the goroutines")
 }
+
+// HC11BindOrder: Bind calls issued before any RTCP writer is bound must return (a Bind, Unbind or
+// Close call never blocks indefinitely, whatever lifecycle calls preceded it).
+func HC11BindOrder() {
+	k := vr.Param("kind", 10)
+	it := member(k)
+	fb := []interceptor.RTCPFeedback{{Type: "nack"}, {Type: "nack", Parameter: "pli"}, {Type: "transport-cc"}, {Type: "ack", Parameter: "ccfb"}}
+	pass := interceptor.RTPReaderFunc(func(b []byte, at interceptor.Attributes) (int, interceptor.Attributes, error) { return 0, at, errDown })
+	n := vr.Param("streams", 3)
+	for i := 0; i < n; i++ {
+		vr.KnownFinding("C11-intervalpli-bind-blocks", k == 10 && i >= 1)
+		it.BindRemoteStream(&interceptor.StreamInfo{SSRC: uint32(100 + i), ClockRate: 90000, RTCPFeedback: fb}, pass)
+		it.BindLocalStream(&interceptor.StreamInfo{SSRC: uint32(200 + i), ClockRate: 90000, RTCPFeedback: fb},
+			interceptor.RTPWriterFunc(func(h *rtp.Header, p []byte, _ interceptor.Attributes) (int, error) { return 0, nil }))
+	}
+	vr.Cover("all binds returned")
+	it.BindRTCPWriter(interceptor.RTCPWriterFunc(func(p []rtcp.Packet, _ interceptor.Attributes) (int, error) { return 0, nil }))
+	vr.Yield()
+	_ = it.Close()
+	vr.Assert(vr.LiveThreads() == 0, "Close waits for the goroutines")
+}
